@@ -88,13 +88,23 @@ CBMC_FLAGS = ['--conversion-check', '--pointer-overflow-check', '--unwinding-ass
 
 
 def cbmc(gb, log, timeout, extra=None, trace=True, flags=None):
-    """returns dict: {'props': [ {name, description, status, location, trace?} ], 'seconds', 'raw_tail'}"""
-    cmd = ['cbmc', gb] + (CBMC_FLAGS if flags is None else flags) + ['--json-ui']
+    """returns dict: {'props': [ {name, description, status, location, trace?} ], 'seconds', 'raw_tail'}.
+    The number of object bits is escalated on demand (8 default .. 12): more bits than needed slow the solver down a lot."""
+    base = ['cbmc', gb] + (CBMC_FLAGS if flags is None else flags) + ['--json-ui']
     if trace:
-        cmd += ['--trace']
+        base += ['--trace']
     if extra:
-        cmd += extra
-    rc, out, err, dt = run(cmd, timeout, log=log)
+        base += extra
+    base = [x for i, x in enumerate(base) if not (x == '--object-bits' or (i > 0 and base[i - 1] == '--object-bits'))]
+    t_all = 0.0
+    for bits in (None, 9, 10, 11, 12):
+        cmd = base + ([] if bits is None else ['--object-bits', str(bits)])
+        rc, out, err, dt = run(cmd, timeout, log=log)
+        t_all += dt
+        if 'too many addressed objects' in out or 'too many addressed objects' in err:
+            continue
+        break
+    dt = t_all
     if rc == -9:
         raise Undecided(f'cbmc timeout after {timeout}s on {gb}')
     try:
